@@ -65,6 +65,50 @@ func (e *Engine) checkOnlyFlows(f *ssa.Function, fl FlowSpec) (bool, string) {
 	return bad == "", bad
 }
 
+// verifyLemma checks a standalone lemma: for all parameter values and all heaps, requires ==> ensures.
+func (e *Engine) verifyLemma(lm *Lemma) []*Obligation {
+	coll := &collector{}
+	key := lm.Pkg + ".lemma " + lm.Name
+	s := &State{eng: e, regs: map[ssa.Value]Val{}, cells: map[*ssa.Alloc]Val{}, iters: map[*ssa.Range]iterState{},
+		heaps: map[string]string{}, ghost: map[string]Val{}, coll: coll, entryVars: map[string]Val{}}
+	// a dummy function context is needed for obligation bookkeeping
+	for _, f := range e.funcs {
+		if f.Pkg != nil && f.Pkg.Pkg.Name() == lm.Pkg {
+			s.fn = f
+			break
+		}
+	}
+	s.cmds = append(s.cmds, "; lemma "+key)
+	s.alloc = s.fresh("alloc0", sInt)
+	s.assume(app("<", "0", s.alloc))
+	s.entry = &Snapshot{Heaps: map[string]string{}, Alloc: s.alloc, Cells: map[*ssa.Alloc]Val{}, Iters: map[*ssa.Range]iterState{}, Ghost: map[string]Val{}}
+	env := &SpecEnv{st: s, old: s.entry, vars: map[string]Val{}, pkg: e.typesPkgs[lm.Pkg]}
+	for _, p := range lm.Params {
+		p := p
+		if err := safeSpec(func() { env.vars[p.Name] = s.freshVal("in:"+p.Name, env.resolveType(p.Type)) }); err != nil {
+			coll.obls = append(coll.obls, &Obligation{Func: key, Kind: "spec-error", Name: "spec-error:param", Props: lm.Props, Goal: "false", Expect: "unsat", Where: lm.Where, Detail: err.Error()})
+		}
+	}
+	for _, c := range lm.Requires {
+		c := c
+		if err := safeSpec(func() { s.assume(env.evalBool(c.Expr)) }); err != nil {
+			coll.obls = append(coll.obls, &Obligation{Func: key, Kind: "spec-error", Name: "spec-error:" + c.Name, Props: lm.Props, Goal: "false", Expect: "unsat", Where: c.Where, Detail: err.Error()})
+		}
+	}
+	for _, c := range lm.Ensures {
+		c := c
+		err := safeSpec(func() {
+			g := env.evalBool(c.Expr)
+			o := &Obligation{Func: key, Kind: "lemma", Name: c.Name, Props: c.Props, Where: c.Where, Goal: g, Expect: "unsat", Spec: c.Src, Cmds: append([]string(nil), s.cmds...)}
+			coll.obls = append(coll.obls, o)
+		})
+		if err != nil {
+			coll.obls = append(coll.obls, &Obligation{Func: key, Kind: "spec-error", Name: "spec-error:" + c.Name, Props: lm.Props, Goal: "false", Expect: "unsat", Where: c.Where, Detail: err.Error()})
+		}
+	}
+	return coll.obls
+}
+
 // verifyFunction generates all obligations of f against its contract.
 func (e *Engine) verifyFunction(f *ssa.Function, spec *FuncSpec) *collector {
 	coll := &collector{}
